@@ -60,7 +60,8 @@ pub fn tables(_w: &mut dyn std::io::Write) {}
 // ---------------------------------------------------------------------------------------------
 // program text
 #[derive(Clone, Copy, Debug, PartialEq)]
-enum Op { Sub(usize), Pub(u32), Poll, Drop(usize) }
+enum Op { Sub(usize), Pub(u32), Poll, /// `poll_timeout` with a timeout far beyond the length of a run: behaves as `poll`
+          PollT, Drop(usize) }
 #[derive(Clone, Copy, Debug, PartialEq)]
 enum Beh { Plain, CbSub(usize) }
 
@@ -72,7 +73,7 @@ fn parse_progs(s: &str) -> Option<Vec<Vec<Op>>> {
     s.split('/').map(|th| {
         if th == "-" { return Some(vec![]); }
         th.split('.').map(|x| {
-            if x == "w" { Some(Op::Poll) }
+            if x == "w" { Some(Op::Poll) } else if x == "t" { Some(Op::PollT) }
             else if let Some(o) = x.strip_prefix('s') { o.parse().ok().map(Op::Sub) }
             else if let Some(e) = x.strip_prefix('p') { e.parse().ok().map(Op::Pub) }
             else if let Some(o) = x.strip_prefix('x') { o.parse().ok().map(Op::Drop) }
@@ -80,7 +81,7 @@ fn parse_progs(s: &str) -> Option<Vec<Vec<Op>>> {
         }).collect()
     }).collect()
 }
-fn fmt_op(o: &Op) -> String { match o { Op::Sub(o) => format!("s{}", o), Op::Pub(e) => format!("p{}", e), Op::Poll => "w".into(), Op::Drop(o) => format!("x{}", o) } }
+fn fmt_op(o: &Op) -> String { match o { Op::Sub(o) => format!("s{}", o), Op::Pub(e) => format!("p{}", e), Op::Poll => "w".into(), Op::PollT => "t".into(), Op::Drop(o) => format!("x{}", o) } }
 fn fmt_progs(p: &[Vec<Op>]) -> String {
     p.iter().map(|t| if t.is_empty() { "-".to_string() } else { t.iter().map(fmt_op).collect::<Vec<_>>().join(".") }).collect::<Vec<_>>().join("/")
 }
@@ -240,6 +241,7 @@ impl Ctx {
     fn subscribe(&self, o: &Arc<Obs>) { match &self.subj { Subj::Plain(s) => s.subscribe(o), Subj::Single(s) => s.subscribe(o) } }
     fn publish(&self, e: u32) { match &self.subj { Subj::Plain(s) => s.next(&e), Subj::Single(s) => s.next(&e) } }
     fn poll(&self) -> u32 { match &self.subj { Subj::Plain(s) => s.poll(), Subj::Single(s) => s.poll() } }
+    fn poll_timeout(&self, d: Duration) -> Result<u32, chain_gang::util::ChainGangError> { match &self.subj { Subj::Plain(s) => s.poll_timeout(d), Subj::Single(s) => s.poll_timeout(d) } }
     fn lookup(&self, o: usize) -> Option<Arc<Obs>> { self.table.lock().unwrap_or_else(|e| e.into_inner()).get(o).cloned().flatten() }
 }
 
@@ -270,6 +272,10 @@ fn run_op(ctx: &Arc<Ctx>, t: usize, op: Op) {
         },
         Op::Pub(e) => { pend(format!("P{}.{}", t, e)); ctx.publish(e); rec(format!("p{}.{}", t, e)); }
         Op::Poll => { pend(format!("W{}", t)); let v = ctx.poll(); rec(format!("w{}.{}", t, v)); }
+        Op::PollT => {
+            pend(format!("W{}", t));
+            match ctx.poll_timeout(Duration::from_secs(30)) { Ok(v) => rec(format!("w{}.{}", t, v)), Err(_) => rec(format!("w{}.timeout", t)) }
+        }
         Op::Drop(o) => {
             hook("h.drop:pre", 0);
             let a = { let mut tb = ctx.table.lock().unwrap_or_else(|e| e.into_inner()); if o < tb.len() { tb[o].take() } else { None } };
@@ -497,7 +503,8 @@ fn random_prog(rng: &mut Rng, nthreads: usize, nops: usize, nobs: usize) -> Vec<
     (0..nthreads).map(|_| (0..nops).map(|_| match rng.below(10) {
         0..=3 => Op::Sub(rng.below(nobs as u64) as usize),
         4..=6 => { ev += 1; Op::Pub(ev - 1) }
-        7..=8 => Op::Poll,
+        7 => Op::Poll,
+        8 => Op::PollT,
         _ => Op::Drop(rng.below(nobs as u64) as usize),
     }).collect()).collect()
 }
@@ -507,7 +514,7 @@ pub fn gen(tier: &str, rng: &mut Rng, out: &mut Vec<String>) {
     out.push("c13.stress subject 8 100 20".into());
     out.push("c13.stress single 8 100 20".into());
     if rx_algo() == "nohooks" { return; }
-    let s = Op::Sub; let p = Op::Pub; let w = Op::Poll; let x = Op::Drop;
+    let s = Op::Sub; let p = Op::Pub; let w = Op::Poll; let x = Op::Drop; let wt = Op::PollT;
     let n = Beh::Plain; let c = Beh::CbSub;
     // (a) all interleavings of 2 threads x 2 operations, curated programs
     let two: Vec<(Vec<Beh>, Vec<Vec<Op>>)> = vec![
@@ -519,6 +526,8 @@ pub fn gen(tier: &str, rng: &mut Rng, out: &mut Vec<String>) {
         (vec![n], vec![vec![w, s(0)], vec![p(1), p(2)]]),
         (vec![n], vec![vec![s(0), w], vec![p(1), x(0)]]),
         (vec![n, n], vec![vec![w, p(3)], vec![s(0), p(1)]]),
+        (vec![n], vec![vec![wt, s(0)], vec![p(1), p(2)]]),
+        (vec![n], vec![vec![s(0), wt], vec![p(1), x(0)]]),
     ];
     let cap = if thorough { 40_000 } else { 6_000 };
     for kind in ["subject", "single"] {
